@@ -409,7 +409,11 @@ pub fn gen_predefined_name_cases(rng: &mut Rng, out: &mut Vec<String>) {
 /// nested calls and indices), probed at every identifier start, at 0:0 / 0:1 and behind every `(` and `,`;
 /// with the specification twins.
 pub fn gen_corner_docs(rng: &mut Rng, which: usize, out: &mut Vec<String>) {
-    let text = match which % 13 {
+    let text = match which % 15 {
+        // array sizes written as character literals, also beyond Latin-1 (the size is the character's low byte)
+        13 => "type row = array ['\u{20ac}'] of int;\ntype tab = array ['A'] of array ['\u{e9}'] of int;\nproc fill(ref r: row, ref t: tab) {\n  r[0] := 1;\n  t[1][2] := r[0];\n}\nproc main() {\n  var r: row;\n  var t: tab;\n  fill(r, t);\n}\n".to_string(),
+        // predefined procedures where a type is expected (not a valid program: every handler must still answer)
+        14 => "type t = printi;\ntype u = array [2] of exit;\nproc p(a: readi) {\n  var v: time;\n}\nproc main() { }\n".to_string(),
         // identifiers with characters beyond ASCII inside them (the lexer accepts every character whose low byte is an
         // ASCII letter or digit): byte length, character count and UTF-16 length of the names all differ
         11 => "proc main() {\n  var n\u{131}: int;\n  var s\u{142}1: int;\n  var v_\u{1F431}: int;\n  n\u{131} := s\u{142}1 + v_\u{1F431};\n  printi(n\u{131});\n}\n".to_string(),
@@ -457,6 +461,15 @@ pub fn gen_corner_docs(rng: &mut Rng, which: usize, out: &mut Vec<String>) {
             pos.push(lsp_pos(&text, i + 1));
         }
     }
+    if pos.len() > 60 {
+        // a large document: the first and the last positions and a sample of the others
+        let mut keep: Vec<(u32, u32)> = pos[..20].to_vec();
+        keep.extend_from_slice(&pos[pos.len() - 20..]);
+        for _ in 0..20 {
+            keep.push(pos[20 + rng.below(pos.len() - 40)]);
+        }
+        pos = keep;
+    }
     for (l, c) in pos {
         for k in ["decl", "typedef", "impl"] {
             out.push(format!("GOTO {} {} {} {}", k, h, l, c));
@@ -474,10 +487,14 @@ pub fn gen_corner_docs(rng: &mut Rng, which: usize, out: &mut Vec<String>) {
 
 pub fn gen_feature_cases(rng: &mut Rng, n: usize, ops: &[&str], broken_pct: usize, out: &mut Vec<String>) {
     for i in 0..n {
-        if i % 25 == 7 {
+        if i % 10 == 7 {
+            // the corner documents in turn, from both ends (a run of a hundred cases sees every one of them)
             let mut tmp = vec![];
-            let w = i / 25 + 3 * rng.below(4);
-            gen_corner_docs(rng, w, &mut tmp);
+            let k = (i / 10) % 15;
+            gen_corner_docs(rng, k, &mut tmp);
+            if k != 14 - k {
+                gen_corner_docs(rng, 14 - k, &mut tmp);
+            }
             out.extend(tmp.into_iter().filter(|l| {
                 let op = l.split(' ').next().unwrap_or("");
                 let base = op.strip_prefix("SPEC").unwrap_or(op);
